@@ -4,6 +4,8 @@ import (
 	"encoding/hex"
 	"fmt"
 	"sort"
+	"strconv"
+	"strings"
 
 	"github.com/spq/pkappa2/internal/verifh/lib"
 )
@@ -455,7 +457,15 @@ func GenBig(r *lib.RNG, name string) *Case {
 	nw := mk("udp", 0, 1, 5555, 53)
 	addRep(&small, nw, 0, t2+100, 2, 3, 0x45)
 	c.Files = []File{big, small}
-	switch r.Intn(3) {
+	// the plan is chosen by the case's ordinal in its name (…-big-<seed>-<i>) so that a run with
+	// k >= 2 big cases always covers "resume from the snapshot" as well as "no snapshot available"
+	variant := r.Intn(3)
+	if i := strings.LastIndex(name, "-"); i >= 0 {
+		if n, err := strconv.Atoi(name[i+1:]); err == nil {
+			variant = n % 3
+		}
+	}
+	switch variant {
 	case 0:
 		c.Plan = []Op{{Op: "new"}, {Op: "put", Files: []string{"big.pcap"}}, {Op: "import", Files: []string{"big.pcap"}},
 			{Op: "put", Files: []string{"after.pcap"}}, {Op: "import", Files: []string{"after.pcap"}}}
